@@ -236,7 +236,12 @@ void CONmtModeChange(CO_NMT *nmt, CO_MODE mode)
         McbDepth--;
     }
 }
-void CONmtResetRequest(CO_NMT *nmt, CO_NMT_RESET r) { (void)nmt; printf("cb resetreq %d\n", (int)r); }
+static int RcbAct, RcbArg;     /* "resetcb setmode <m>": the application requests a mode inside CONmtResetRequest (e.g. a self-starting device) */
+void CONmtResetRequest(CO_NMT *nmt, CO_NMT_RESET r)
+{
+    printf("cb resetreq %d %d\n", (int)r, (int)CONmtGetMode(nmt));
+    if (RcbAct == 1) CONmtSetMode(nmt, (CO_MODE)RcbArg);
+}
 /* "hbeventcb <sub> <v1> <v2>": the next heartbeat event makes the application re-configure entry 1016h:<sub> from inside the callback
  * (sub > 0), or reset the communication from there (sub = -1: "monitored node lost, so reset communication") */
 static int HecSub; static uint32_t HecV1, HecV2;
@@ -699,7 +704,7 @@ int main(void)
             step = 0;
         } else if (!strcmp(c, "lsspreset")) { LssHave = 1; LssBaud = U(1); LssNode = (uint8_t)U(2); step = 0;
         } else if (!strcmp(c, "init"))  { do_init(); Quiet = 0;
-        } else if (!strcmp(c, "restart")) { Tick = 0; HwCnt = 0; McbAct = 0; HccSub = 0; HecSub = 0; do_init();
+        } else if (!strcmp(c, "restart")) { Tick = 0; HwCnt = 0; McbAct = 0; RcbAct = 0; HccSub = 0; HecSub = 0; do_init();
         } else if (!strcmp(c, "reinit")) {  /* the documented restart: stop, init and start again on the RAM as it is (no dictionary rebuild) */
             CONodeStop(Node); LockDepth = 0; RxHave = 0; CONodeInit(Node, &Spec);
         } else if (!strcmp(c, "start")) { CONodeStart(Node);
@@ -721,6 +726,7 @@ int main(void)
         } else if (!strcmp(c, "initcb")) { IcbIdx = X(1); IcbSub = argc > 2 ? X(2) : 0; IcbVal = argc > 3 ? U(3) : 0;
         } else if (!strcmp(c, "ramfillcb")) { McbRamFill = (int)strtol(ARG(1), NULL, 0); step = 0;
         } else if (!strcmp(c, "modecb")) { McbMode = (int)U(1); McbAct = !strcmp(ARG(2), "setmode") ? 1 : !strcmp(ARG(2), "trigpdo") ? 2 : 0; McbArg = argc > 3 ? (int)U(3) : 0;
+        } else if (!strcmp(c, "resetcb")) { RcbAct = !strcmp(ARG(1), "setmode") ? 1 : 0; RcbArg = argc > 2 ? (int)U(2) : 0;
         } else if (!strcmp(c, "setmode")) { CONmtSetMode(&Node->Nmt, (CO_MODE)U(1));
         } else if (!strcmp(c, "getmode")) { printf("ret %d\n", (int)CONmtGetMode(&Node->Nmt));
         } else if (!strcmp(c, "nmtreset")) { CONmtReset(&Node->Nmt, (CO_NMT_RESET)U(1));
@@ -783,7 +789,7 @@ int main(void)
                    if (e == CO_ERR_NONE) { CsBuf[n] = b; CsLen[n] = (uint32_t)sz; }
                    printf("ret %d\n", (int)e); }
         } else if (!strcmp(c, "pdotxcb")) { PtxNum = (int)strtol(ARG(1), NULL, 0);
-        } else if (!strcmp(c, "appclear")) { PtxNum = -1; CbReqTmo = 0; CbReqRes = -1; CbEmcy = 0; CbTmrTag = -1; HecSub = 0; HccSub = 0; McbAct = 0;   /* the scripted application forgets its plans */
+        } else if (!strcmp(c, "appclear")) { PtxNum = -1; CbReqTmo = 0; CbReqRes = -1; CbEmcy = 0; CbTmrTag = -1; HecSub = 0; HccSub = 0; McbAct = 0; RcbAct = 0;   /* the scripted application forgets its plans */
         } else if (!strcmp(c, "csdocbreq")) { CbReqTmo = U(1); CbReqRes = -1;
         } else if (!strcmp(c, "csdocbreqres")) { printf("ret %d\n", CbReqRes); CbReqRes = -1;
         } else if (!strcmp(c, "csdocbemcy")) { CbEmcy = 1;
